@@ -8,6 +8,7 @@ import DTML.Render
 import DTML.Props.C08
 import DTML.Lemmas.Cache
 import DTML.GenNs
+import DTML.GenStack
 import DTML.Lemmas.Call
 set_option linter.unusedVariables false
 namespace DTML.Props.C02
@@ -622,5 +623,97 @@ theorem gen_call_is_topCall (env : Env) (fuel : Nat) (t : Template) (clients : L
 theorem gen_call_is_callSub (env : Env) (fuel id : Nat) (t : Template) (st : St) (ht : env.templates[id]? = some t) :
     GenCall.callGen env fuel t [] .namespace [] st = callSub env (fuel + 1) id st :=
   Lemmas.Call.call_on_caller_namespace env fuel id t st ht
+
+/-! ### `md[name]`, `name in md` / `md.has_key(name)`, `len(md)` are the ones of the source
+
+`GenStack.subscriptGen`, `containsGen`, `hasKeyGen`, `lenGen` are regenerated on every run from `TemplateDict.__getitem__`,
+`__contains__`, `has_key`, `__len__` (harness/trans_stack.py).  The loops of the source run over `reversed(self._data)` (from
+the data source pushed last down) or over `self._data`; the model's stack has the TOP FIRST (`GenStack.dataOf st =
+st.stack.reverse` is `_data`), so `reversed(self._data)` is the stack itself. -/
+
+theorem iterOf_reversed (st : St) : GenStack.iterOf true st = st.stack := by
+  simp [GenStack.iterOf, GenStack.dataOf, GenStack.tdOf]
+
+/-- `md[name]` - `self.getitem(name, call=1)` - is `getitem` with auto-call -/
+theorem gen_subscript_is_model (env : Env) (fuel : Nat) (name : Text) (st : St) :
+    GenStack.subscriptGen env fuel name st = getitem env (fuel + 1) name true st := by
+  simp only [GenStack.subscriptGen, iterOf_reversed]
+  rw [gen_templatedict_getitem_is_model]
+  rfl
+
+private theorem containsLoop_spec (env : Env) (key : Text) :
+    ∀ (below above : List Frame) (st : St),
+    GenStack.containsLoopGen env key below above st =
+      (match lookupStack env below key st.trace with
+       | (.missing, tr) => (.ok false, { st with trace := tr })
+       | (.raise e, tr) => (.raise e, { st with trace := tr })
+       | (.val _ below', tr) => (.ok true, { st with stack := above ++ below', trace := tr })) := by
+  intro below
+  induction below with
+  | nil => intro above st; simp [GenStack.containsLoopGen, GenStack.containsAfterGen, lookupStack]
+  | cons f fs ih =>
+    intro above st
+    simp only [GenStack.containsLoopGen, lookupStack]
+    cases hfg : frameGet env f key st.trace with
+    | mk r tr =>
+      cases r with
+      | missing =>
+        simp only
+        rw [ih (above ++ [f]) { st with trace := tr }]
+        simp only
+        cases hl : lookupStack env fs key tr with
+        | mk r2 tr2 =>
+          cases r2 with
+          | missing => rfl
+          | raise e => rfl
+          | val v fs' => simp [List.append_assoc]
+      | raise e => rfl
+      | val v f' => simp [GenStack.restack]
+
+/-- **`key in md` of the source is `hasKey` of the model**: the loop over `reversed(self._data)` with `try: e = e[key] except
+(KeyError, NameError): continue`, `return True`, and `return False` after the loop -/
+theorem gen_contains_is_model (env : Env) (key : Text) (st : St) :
+    GenStack.containsGen env key st = hasKey env key st := by
+  simp only [GenStack.containsGen, iterOf_reversed, containsLoop_spec, hasKey, List.nil_append]
+  cases lookupStack env st.stack key st.trace with
+  | mk r tr => cases r <;> rfl
+
+/-- `md.has_key(key)` is `key in md` -/
+theorem gen_has_key_is_model (env : Env) (key : Text) (st : St) :
+    GenStack.hasKeyGen env key st = hasKey env key st := by
+  simp only [GenStack.hasKeyGen, gen_contains_is_model, GenStack.mapBool]
+  cases hasKey env key st with
+  | mk r st' => cases r <;> rfl
+
+/-- `has_key` answers true exactly when `md.getitem(key, 0)` hands out a value, false exactly when it raises the KeyError
+of the name; an exception of a data source ends both; and both leave the same namespace behind -/
+theorem has_key_agrees_with_getitem (env : Env) (fuel : Nat) (key : Text) (st : St) :
+    (match hasKey env key st, getitem env (fuel + 1) key false st with
+     | (.ok true, s1), (.ok _, s2) => s1 = s2
+     | (.ok false, s1), (.raise e, s2) => e = keyError key ∧ s1 = s2
+     | (.raise e1, s1), (.raise e2, s2) => e1 = e2 ∧ s1 = s2
+     | _, _ => False) := by
+  simp only [hasKey, getitem]
+  cases lookupStack env st.stack key st.trace with
+  | mk r tr => cases r <;> simp
+
+private theorem lenLoop_spec (flen : Frame → Int) : ∀ (xs : List Frame) (total : Int),
+    GenStack.lenLoopGen flen xs total = total + (xs.map flen).sum := by
+  intro xs
+  induction xs with
+  | nil => intro total; simp [GenStack.lenLoopGen]
+  | cons x t ih => intro total; simp only [GenStack.lenLoopGen, ih, List.map_cons, List.sum_cons]; omega
+
+private theorem sum_reverse_int (xs : List Int) : xs.reverse.sum = xs.sum := by
+  induction xs with
+  | nil => rfl
+  | cons x t ih => simp only [List.reverse_cons, List.sum_append, ih, List.sum_cons, List.sum_nil]; omega
+
+/-- `len(md)` is the sum of the sizes of the data sources (in whatever order the loop passes them) -/
+theorem gen_len_is_model (flen : Frame → Int) (st : St) :
+    GenStack.lenGen flen st = (st.stack.map flen).sum := by
+  simp only [GenStack.lenGen, lenLoop_spec, GenStack.iterOf, GenStack.dataOf, GenStack.tdOf]
+  simp only [if_neg Bool.false_ne_true, Int.zero_add]
+  rw [List.map_reverse, sum_reverse_int]
 
 end DTML.Props.C02
